@@ -30,6 +30,20 @@ type Solver struct {
 	useTac  bool
 	hasUF   bool
 	dead    bool
+	incr    bool // incremental QF_BV mode: plain (check-sat) under push/pop (z3's incremental SAT core)
+}
+
+// NewIncrSolver: a z3 process in QF_BV logic answering plain (check-sat) under push/pop; measured 2x
+// faster than the tactic pipeline on the feasibility queries of the Exclusive harnesses, with no unknowns.
+func NewIncrSolver(logPath string) (*Solver, error) {
+	s, err := NewSolver("z3-new", logPath)
+	if err != nil {
+		return nil, err
+	}
+	s.incr = true
+	s.useTac = false
+	s.send("(set-logic QF_BV)\n")
+	return s, nil
 }
 
 func solverArgs(name string) (string, []string) {
